@@ -202,7 +202,9 @@ def write_wkt(
         The path where the geometry should be written to.
     """
     with open(path, 'w') as f:
-        f.write(shapely.to_wkt(_to_multipolygon(dataset)))
+        # rounding_precision=-1 writes the full coordinate values,
+        # the default rounds to six decimal places.
+        f.write(shapely.to_wkt(_to_multipolygon(dataset), rounding_precision=-1))
 
 
 def write_wkb(
